@@ -3,6 +3,7 @@ from __future__ import annotations
 
 import collections
 import random
+import re
 
 from .. import biggen, canon, driver, geom, lang, protos
 from . import C09
@@ -25,8 +26,8 @@ ASSUMPTIONS = [
     "an entity is powered when its collision box has a positive-area intersection with a pole's supply square",
 ]
 
-F_COVER = "C18-pre-layout-pole-grid-leaves-consumers-unpowered"
-F_GRID = "C18-pole-grid-not-one-electric-network"
+F_COVER = "C18-no-free-tile-for-a-pole-next-to-a-consumer"
+_RE_NOFREE = re.compile(r"No free tile for a (\w+) power pole near \(([-\d.]+), ([-\d.]+)\)")
 TYPES = ["small", "medium", "big", "substation"]
 
 
@@ -101,10 +102,22 @@ def run_case(case):
             return dict(base, verdict="violated", nontrivial=True, evaluations=n_comp,
                         why="poles=%s: user entities differ from the pole-free build" % t,
                         witness=dict(witness, missing=list((users0 - users).items())[:4], extra=list((users - users0).items())[:4]))
+        # The listed finding is the situation the compiler itself announces: no free tile of the pole's footprint
+        # within the supply distance of a consumer (dense layout, 2x2 poles with a 4x4 supply area).  An uncovered
+        # consumer WITHOUT that announcement, and any split grid, is a violation.
+        text = "\n".join(b.diags or [])
+        warned = {(float(x), float(y)) for _t, x, y in _RE_NOFREE.findall(text)}
+        unexplained = [p for p in uncovered
+                       if (float(p["entity"][2]["x"]), float(p["entity"][2]["y"])) not in warned]
+        if unexplained:
+            return dict(base, verdict="violated", nontrivial=True, evaluations=n_comp,
+                        why="poles=%s: %s (and the compiler reports no placement problem for it)" % (t, unexplained[0]),
+                        witness=dict(witness, problems=unexplained[:5], warned=sorted(warned)[:8]))
+        if split:
+            return dict(base, verdict="violated", nontrivial=True, evaluations=n_comp,
+                        why="poles=%s: %s" % (t, split[0]), witness=dict(witness, problems=split[:2]))
         if uncovered:
             listed.append((F_COVER, t, uncovered[:3], witness))
-        elif split:
-            listed.append((F_GRID, t, split[:1], witness))
         if sample is None and not probs:
             npoles = len([e for e in b.bp["blueprint"]["entities"] if e["name"] == protos.POLE_TYPES[t]])
             sample = {"source": src[:800], "pole_type": t, "poles": npoles, "entities": len(b.bp["blueprint"]["entities"]),
